@@ -35,6 +35,8 @@ def run(ck):
     ck.extra_tb += [
         "modelled, not verified: the C code's memory safety (out-of-bounds access) is not expressible in the model; "
         "the buffer address enters the SSE2 model only through (address & 15), as in the C source",
+        "role policy: theorems are about Model/WsSend.v build_frame (model of sendFrame), tied to the code by the C01 "
+        "correspondence run and here by an oracle run on the real client/server protocol objects with pinned keys",
         "cffi buffer copy in XorMaskerNvx.process and array('B') in the pure-Python maskers are glue covered by the runs only",
     ]
     ck.rule.append("sweep of payload length x start offset x buffer alignment x key x chunk split over the real "
@@ -86,6 +88,16 @@ def run(ck):
         if not any(s["impl"] == m["impl"] for m in mismatches):
             ck.violation(f"{s['impl']}/model-disagrees", "implementation and Gallina model disagree on a case that "
                          "naive XOR accepts (correspondence broken)", s, found_input=False)
+    # role policy on the real protocol objects (both frameworks); the sendFrame model itself is tied to the code by C01's run
+    sizes = [0, 1, 5, 125, 126, 127, 300] if ck.quick() else [0, 1, 5, 124, 125, 126, 127, 128, 300, 65535, 65536, 70000]
+    for fw in ("tx", "aio"):
+        r = ck.run_impl("role_policy.py", {"framework": fw, "seed": ck.seed, "sizes": sizes})
+        ck.evaluations += r["cases"]
+        ck.bump(f"role_policy_frames_{fw}", r["frames"])
+        ck.log(f"role policy {fw}: {r['cases']} send sequences, {r['frames']} frames, {len(r['bad'])} violations")
+        for b in r["bad"][:2]:
+            ck.violation(f"role-policy/{b['role']}", f"default-option {b['role']} frames violate the masking policy "
+                         f"(size={b['size']}, fragmentSize={b['fragmentSize']})", dict(b, framework=fw), found_input=True)
     if broken and not mismatches:
         ck.log("proof obligations broken, no failing input found by the sweep")
 
